@@ -98,7 +98,53 @@ pub struct Content {
 }
 
 /// Byte pieces for `Content::utf8_chunks`.
+/// `utf8_chunks >= 200`: piece lists that are *not* UTF-8 as a whole (the streaming sink must
+/// answer with its error, whatever the split).
+pub const HOSTILE_PIECES: &[&[&[u8]]] = &[
+    &[&[0xf0], &[0x9f, 0x90, 0x88, 0x80]],
+    &[&[0xc3], &[0xa9, 0x80, 0x80, 0x80]],
+    &[&[0xe6, 0x96], &[0x87, 0x80, 0x80, 0x80]],
+    &[&[0xf0, 0x9f], &[0x90], &[0x88, 0x80, 0x80]],
+    &[&[b'a', 0xff]],
+    &[&[0xc3], &[0x28]],
+    &[&[0xe6], &[], &[0x96], &[b'x']],
+    &[&[0x80]],
+    &[&[0xf8, 0x88, 0x80, 0x80, 0x80]],
+    &[&[b'o', b'k', 0xc3]],
+];
+
+/// `100 <= utf8_chunks < 200`: the content ends with a multi-byte character whose last byte never
+/// arrives (a truncated source); the handler then calls write_str(""), which makes the sink give
+/// up on the partial character and emit U+FFFD in its place. Returns the string that is rendered
+/// before the marker, or None when the content does not end in a multi-byte character.
+pub fn truncated_prefix(c: &Content) -> Option<&str> {
+    if !(100..200).contains(&c.utf8_chunks) || c.stream == 0 {
+        return None;
+    }
+    let last = c.s.chars().next_back()?;
+    if last.len_utf8() < 2 {
+        return None;
+    }
+    Some(&c.s[..c.s.len() - last.len_utf8()])
+}
+
 pub fn byte_pieces(s: &str, k: u8) -> Vec<Vec<u8>> {
+    if (100..200).contains(&k) {
+        let mut b = s.as_bytes().to_vec();
+        if s.chars().next_back().is_some_and(|c| c.len_utf8() >= 2) {
+            b.pop();
+        }
+        let n = (k as usize - 100).max(1);
+        let per = b.len().div_ceil(n).max(1);
+        let mut v: Vec<Vec<u8>> = b.chunks(per).map(<[u8]>::to_vec).collect();
+        if v.is_empty() {
+            v.push(vec![]);
+        }
+        return v;
+    }
+    if k >= 200 {
+        return HOSTILE_PIECES[(k as usize - 200) % HOSTILE_PIECES.len()].iter().map(|p| p.to_vec()).collect();
+    }
     let b = s.as_bytes();
     let k = (k as usize).max(1);
     let per = b.len().div_ceil(k).max(1);
